@@ -190,5 +190,5 @@ def run_link(case: dict) -> LinkResult:
     if kind == "awgn" and tmod.sym_out is not None and tdem.sym_in is not None:
         disp = (tdem.sym_in.reshape(-1).to(torch.complex128) - tmod.sym_out.reshape(-1).to(torch.complex128)).abs()
         res.fired = {"symbols_displaced": int(disp.numel())}
-        res.in_budget = bool(float(disp.max()) < 0.98 * plan["dmin"] / 2.0)
+        res.in_budget = bool(float(disp.max()) < plan.get("soft_budget", 0.98) * plan["dmin"] / 2.0)
     return res
